@@ -1,3 +1,130 @@
-import NdnVerif.Driver.Common
--- stub: replaced by the C12 model driver
-def main : IO Unit := IO.println "DONE lines=0 histories=0 diffs=0 specs=0 skipped=0"
+import NdnVerif.C03.DriverLib
+open Ndn Ndn.Driver Ndn.C03 Ndn.C03.Text Ndn.C03.Drv
+
+structure St where
+  last : Option Mk := none
+
+/-- the SignatureType a shipped validator insists on, by signer token -/
+def validatorType (tok : String) : Option Nat :=
+  if tok.startsWith "sha" then some 0 else if tok.startsWith "hmac" then some 4
+  else if tok.startsWith "ecc" then some 3 else if tok.startsWith "rsa" then some 1 else none
+
+/-- decode (model) + validator prediction under A-crypto: the validator of the matching type
+    accepts (covered', value') iff it is exactly the (covered, value) pair the signer produced.
+    Returns the verdict letter and the signed portion the parser reports. -/
+def modelVerdict (mk : Mk) (r : Rd) : Char × Bytes :=
+  let res : Res (Option SigInfo × Option Bytes × Bytes) :=
+    if mk.kind == 'D' then do
+      let (d, cov) ← readData r
+      pure (d.si, d.sv, cov)
+    else do
+      let (i, cov) ← readInterest Sha.sha256 r
+      pure (i.si, i.sv, cov)
+  match res with
+  | .ok (si, sv, cov) =>
+    match validatorType mk.signer with
+    | none => ('n', cov)
+    | some t =>
+      -- Interest.SigValue() joins a nil wire to an empty value; Data.SigValue() returns nil
+      if si.map (·.typ) == some t ∧ some cov == mk.handedCov ∧ sv.getD [] == mk.sv.getD [] ∧ mk.sv.isSome then ('a', cov) else ('r', cov)
+  | .err => ('e', [])
+  | .panic _ => ('p', [])
+  | .alloc => ('?', [])
+  | .oom => ('?', [])
+
+def flipBit (w : Bytes) (bit : Nat) : Bytes :=
+  w.set (bit / 8) (Nat.xor (w.getD (bit / 8) 0) (2 ^ (7 - bit % 8)))
+
+/-- positions (byte offsets) whose tampering the property promises to detect -/
+def claimed (w : Bytes) : List (Nat × Nat) :=
+  Spec.signedRanges w ++ (Spec.sigValueRange w).toList ++ (Spec.paramsRange w).toList
+
+def specFlip (mk : Mk) (bit : Nat) (v : Char) : List SpecFail :=
+  let inClaim := Spec.inRanges (claimed mk.w) (bit / 8)
+  let region := if Spec.inRanges (Spec.signedRanges mk.w) (bit / 8) then "signed"
+    else if Spec.inRanges (Spec.sigValueRange mk.w).toList (bit / 8) then "sigvalue" else "params"
+  -- a signature can only protect what a validator checks: signed regions are claimed for signed
+  -- packets, the parameters for every Interest that carries them
+  let applies := inClaim ∧ ((validatorType mk.signer).isSome ∧ mk.signed ∨ region == "params")
+  -- a Go panic while decoding tampered bytes ('p') is a decoding failure for THIS property (the
+  -- packet is not accepted); crash-freedom on arbitrary bytes is property C04. The model predicts
+  -- every verdict it can decide, so an unexpected panic still surfaces as a DIFF.
+  if applies ∧ (v == 'a' ∨ v == 'n') then
+    [⟨"tamper-detected", region ++ "-" ++ String.singleton mk.kind ++ "-" ++ mk.signer,
+      s!"bit {bit} (byte {bit / 8}, {region}) flipped: the packet still decodes and is not rejected (verdict {v})"⟩]
+  else []
+
+def stepC12 (st : St) (op : String) (got : String) : StepResult St :=
+  let f := op.splitOn " "
+  match f with
+  | ["new"] => { st := {}, expected := some "ok" }
+  | "mkd" :: _ =>
+    let r := runMkd f got
+    { st := { last := r.built }, expected := some r.expected, cov := r.cov,
+      spec := r.spec.filter (fun s => s.clause == "builds" || s.clause == "no-panic"),
+      nontrivial := (r.built.map (·.signed)).getD false }
+  | "mki" :: _ =>
+    let r := runMki f got
+    { st := { last := r.built }, expected := some r.expected, cov := r.cov,
+      spec := r.spec.filter (fun s => s.clause == "builds" || s.clause == "no-panic"),
+      nontrivial := (r.built.map (fun m => m.signed || m.hasParams)).getD false }
+  | ["val", cuts] =>
+    match st.last with
+    | none => { st := st, expected := some "skip" }
+    | some mk =>
+      match readerOf mk.w cuts with
+      | none => { st := st, expected := some "bad-op" }
+      | some r =>
+        let (v, cov) := modelVerdict mk r
+        let expected :=
+          if v == 'e' then "e"
+          else
+            let c := match mk.handedCov with
+              | none => "na"
+              | some h => if h == cov then "eq" else "ne:" ++ hexOrDash cov
+            s!"{v} cov={c}"
+        let hasVal := (validatorType mk.signer).isSome ∧ mk.signed
+        let spec : List SpecFail :=
+          (if isCrash got then [⟨"no-panic", "val", tk got 160⟩] else []) ++
+          (if (got.splitOn " cov=ne").length > 1 then
+            [⟨"covered", String.singleton mk.kind ++ "-" ++ mk.signer,
+              s!"the signed portion reported by the parser (cuts {cuts}) differs from the bytes handed to the signer"⟩] else []) ++
+          (if hasVal ∧ !got.startsWith "a" ∧ !isCrash got then
+            [⟨"accepts", String.singleton mk.kind ++ "-" ++ mk.signer,
+              s!"the untampered packet is not accepted by the matching validator (cuts {cuts}): {tk got 40}"⟩] else []) ++
+          (match mk.handedCov with
+           | some h => if mk.signed ∧ h ≠ Spec.signedPortion mk.w then
+               [⟨"covered-spec", String.singleton mk.kind ++ "-" ++ mk.signer,
+                 "the signer was handed bytes other than the signed portion the packet format prescribes"⟩] else []
+           | none => [])
+        { st := st, expected := some expected, spec := spec,
+          cov := [if cuts == "c" then "val-contiguous" else "val-segmented"] ++ (if v == 'a' then ["val-accept"] else if v == 'n' then ["val-novalidator"] else []) }
+  | ["flip", b] =>
+    match st.last, b.toNat? with
+    | some mk, some bit =>
+      if bit ≥ 8 * mk.w.length then { st := st, expected := some "skip" } else
+      let (v, _) := modelVerdict mk (newBufferReader (flipBit mk.w bit))
+      let gv := got.toList.headD '?'
+      { st := st, expected := if v == '?' then none else some (String.singleton v), spec := specFlip mk bit gv,
+        cov := ["flip-" ++ String.singleton v] }
+    | none, _ => { st := st, expected := some "skip" }
+    | _, none => { st := st, expected := some "bad-op" }
+  | ["flipall"] =>
+    match st.last with
+    | none => { st := st, expected := some "skip" }
+    | some mk =>
+      let gl := match got.splitOn " " with | [_, s] => s.toList | _ => []
+      let n := 8 * mk.w.length
+      let model : List Char := (List.range n).map fun bit => (modelVerdict mk (newBufferReader (flipBit mk.w bit))).1
+      -- positions the model does not decide ('?': out-of-model length / allocation) are not compared
+      let merged := (List.range n).map fun i => let m := model.getD i '?'; if m == '?' then gl.getD i '?' else m
+      let spec := (List.range n).flatMap fun bit => specFlip mk bit (gl.getD bit '?')
+      let tags := (model.eraseDups).map fun c => "flip-" ++ String.singleton c
+      let regions := (if (Spec.signedRanges mk.w).isEmpty then [] else ["flip-signed-region"]) ++
+        (if (Spec.paramsRange mk.w).isSome then ["flip-params-region"] else [])
+      { st := st, expected := some s!"{mk.w.length} {String.ofList merged}",
+        spec := if isCrash got then [⟨"no-panic", "flipall", tk got 160⟩] else spec.take 4,
+        cov := "flipall" :: tags ++ regions }
+  | _ => { st := st, expected := some "bad-op" }
+
+def main : IO Unit := Ndn.Driver.run ({} : St) stepC12
